@@ -54,6 +54,19 @@ MUTANTS = [
       (CLI, "                                variables[decl.name] = {\n                                    \"decl\": decl,", "                                variables[decl.name] = {\n                                    \"decl\": Declaration(decl.source_line, decl.source_column, decl.name, decl.lower_name, list(decl.value), decl.important),")),
 ]
 
+MUTANTS += [
+    M("sweep: failed counter incremented by two", (CLI, "                    if not pair.is_valid:\n                        stats[\"failed\"] += 1\n", "                    if not pair.is_valid:\n                        stats[\"failed\"] += 2\n")),
+    M("sweep: color_decl not initialised (a rule without a colour hits an unbound name)", (CLI, "            modified = False\n            color_decl = None\n", "            modified = False\n")),
+    M("sweep: background taken from any declaration that is not background-color",
+      (CLI, "                elif decl.name == \"background-color\":\n                    bg_decl = decl", "                elif not decl.name == \"background-color\":\n                    bg_decl = decl")),
+    M("sweep: background declaration never recorded", (CLI, "                elif decl.name == \"background-color\":\n                    bg_decl = decl", "                elif decl.name == \"background-color\":\n                    pass")),
+    M("sweep: invalid pairs counted but not listed",
+      (CLI, "                        stats[\"failed\"] += 1\n                        stats[\"failed_details\"].append(\n                            {\n                                \"file\": file_path.name,\n                                \"selector\": selector,\n                                \"text\": text_color_str,\n                                \"bg\": bg_color_str,\n                                \"reason\": f\"Invalid colors: {', '.join(pair.errors)}\",\n                            }\n                        )",
+       "                        stats[\"failed\"] += 1")),
+    M("seed: classification on the ratio rounded to two decimals",
+      (CLI, "                        contrast = calculate_contrast_ratio(pair.text.rgb, pair.bg.rgb)\n", "                        contrast = round(calculate_contrast_ratio(pair.text.rgb, pair.bg.rgb), 2)\n")),
+]
+
 BENIGN = [
     M("target chosen with if/else statements",
       (CLI, "                        target_ratio = 7.0 if premium else 4.5\n", "                        if premium:\n                            target_ratio = 7.0\n                        else:\n                            target_ratio = 4.5\n")),
